@@ -198,6 +198,12 @@ pub mod oracle {
             if VERDICT.v[i] { Ok(()) } else { Err(SignatureError::new()) }
         }
     }
+    /// `VerifyingKey::from_bytes` (point decompression) behind a flagged cut, for obligations in
+    /// which a malformed key must be refused *before* any curve arithmetic
+    pub fn from_bytes_cut(_b: &[u8; 32]) -> Result<VerifyingKey, SignatureError> {
+        super::cut();
+        Err(SignatureError::new())
+    }
     /// true iff query i was about exactly (key, msg, sig)
     pub fn was_about(i: usize, key: &[u8; 32], msg: &[u8], sig: &[u8; 64]) -> bool {
         unsafe {
